@@ -6,7 +6,7 @@ MANIFEST = {
             "goroutine and ANY number of concurrent Read/Write (`do`) and Close calls under every interleaving: C41_no_panic (done closed once, "
             "no send on a closed channel), C41_data_in_order, C41_result_not_crossed, C41_do_returns_received, C41_no_transfer_after_close, "
             "C41_nobody_parked_after_close, C41_do_after_close_eof (+ C41_eof_is_returned), C41_pending_do_unblocked (enabledness), "
-            "C41_wiring (Read->reader feeder->in.Read, Write->writer feeder->out.Write, Close closes both, one run goroutine each). FULL on the model; "
+            "C41_frame (only newFeeder/do/run/close touch the channels and the flag), C41_wiring (Read->reader feeder->in.Read, Write->writer feeder->out.Write, Close closes both, one run goroutine each). FULL on the model; "
             "tie: translator + differential scripts (incl. Close while a call is blocked in the underlying stream) + linearised concurrent "
             "histories through the same model + property oracle on stress histories of the real connection.",
     "note": "trusted: Lean kernel; the semantics given to select/close in TS.next — in particular that a goroutine parked in a select is claimed "
